@@ -539,25 +539,24 @@ theorem parseDate_sound {ℓ : Locale} {s : List Char} {serial : Nat} {fmt : Lis
                     hsepv, hv, ?_, hday, hmonth, hyear, by rw [hserial]; exact hser, by omega, by omega⟩
                   unfold dateFields at hfields
                   unfold dateFormat at h2
-                  by_cases hu : utf8Len p0 = 4
-                  · left
-                    simp only [hu, beq_self_eq_true, if_true, Bool.true_and, Bool.not_eq_true', Bool.not_eq_false,
-                      Prod.mk.injEq] at hiso hfields h2
-                    have : allDigits p1 = true ∧ allDigits p2 = true := by
-                      cases ha : allDigits p1 <;> cases hb : allDigits p2 <;> simp_all
-                    obtain ⟨e1, e2, e3⟩ := hfields
-                    exact ⟨hu, e1.symm, e2.symm, e3.symm, this.1, this.2, h2.symm⟩
-                  · have hu' : (utf8Len p0 == 4) = false := by simp [hu]
-                    simp only [hu', if_false, Bool.false_eq_true] at hfields h2
+                  cases hu : isoYear p0
+                  · simp only [hu, Bool.false_and, if_false, Bool.false_eq_true] at hfields h2
                     cases hdf : ℓ.dayFirst
                     · right; right
                       simp only [hdf, Bool.false_eq_true, if_false, Prod.mk.injEq, Bool.not_false, if_true] at hfields h2
                       obtain ⟨e1, e2, e3⟩ := hfields
-                      exact ⟨hu, rfl, e1.symm, e2.symm, e3.symm, h2.symm⟩
+                      exact ⟨rfl, rfl, e1.symm, e2.symm, e3.symm, h2.symm⟩
                     · right; left
                       simp only [hdf, if_true, Prod.mk.injEq, Bool.not_true, Bool.false_eq_true, if_false] at hfields h2
                       obtain ⟨e1, e2, e3⟩ := hfields
-                      exact ⟨hu, rfl, e1.symm, e2.symm, e3.symm, h2.symm⟩
+                      exact ⟨rfl, rfl, e1.symm, e2.symm, e3.symm, h2.symm⟩
+                  · left
+                    simp only [hu, if_true, Bool.true_and, Bool.not_eq_true', Bool.not_eq_false,
+                      Prod.mk.injEq] at hiso hfields h2
+                    have : allDigits p1 = true ∧ allDigits p2 = true := by
+                      cases ha : allDigits p1 <;> cases hb : allDigits p2 <;> simp_all
+                    obtain ⟨e1, e2, e3⟩ := hfields
+                    exact ⟨rfl, e1.symm, e2.symm, e3.symm, this.1, this.2, h2.symm⟩
     · cases h
 
 
